@@ -5,7 +5,7 @@ from ..core import sym
 from ..core.expand import u, call_name, get_arg, bind_args, Expander, is_marker, phi_alternatives
 from ..core.loader import Inconclusive, const_value, parents
 from .common import (alternatives, accumulation_alternatives, dispatch_targets, returns, all_nodes, callee, strip_shape, calls_in, guards_of, stmt_of, kw, find_assignments, compare_nf,
-                     dict_literal_items, in_loop)
+                     dict_literal_items, in_loop, peval)
 
 EXPLANATION = (
     "Decided: D1 scaling is absolute: _data is written only in __init__ and read only by the `data` property, _scale "
@@ -249,6 +249,15 @@ def rule_schema(ck):
                 four_tuples(c_, swapped)
         found = []
         four_tuples(pe, None)
+        if not found or any(sw_ is None for _, sw_ in found):
+            # corner columns taken from a table keyed by the flag (or any other construction that is decided once swap_latlon is
+            # known): evaluate the polygon expression for both values of the flag
+            found = []
+            for sw_ in (False, True):
+                pv = peval(pe, {'swap_latlon': ast.Constant(value=sw_)})
+                before = len(found)
+                four_tuples(pv, sw_)
+                found[before:] = [(e_, sw_) for e_, _ in found[before:]]
         for e, swapped in found:
             oo = ck.ob('C11-D2.vertex', f, e.elts[0], rets[0])
             got = tuple(u(x) for x in e.elts[0].elts)
